@@ -931,7 +931,9 @@ pub(crate) fn eval<
 
         // Sponge chain starts (next row new_start, not Merkle): capacity is never witness-fed.
         // The first capacity element starts at the length tag (fresh capacity 0 `+= cap_tag`); the
-        // rest stay zero.
+        // rest stay zero. This only looks at the next row, so it is also enforced across the
+        // wrap-around (last row -> row 0): otherwise the capacity of the very first row of the
+        // table, which is never the "next" row of a transition, would be a free prover choice.
         for slot in RATE_EXT..WIDTH_EXT {
             for d in 0..D {
                 let tag = if slot == RATE_EXT && d == 0 {
@@ -940,7 +942,6 @@ pub(crate) fn eval<
                     AB::Expr::ZERO
                 };
                 builder
-                    .when_transition()
                     .when(next_new_start)
                     .when(not_merkle.clone())
                     .assert_zero(next_in[slot * D + d] - tag);
